@@ -8,6 +8,7 @@ import itertools
 
 from .. import history
 from ..models import State, KEYS, sorted_key
+from ..battery import call
 from ..observe import observe, lib_args
 from ..monitor import CaseAbort
 from ..refs import components
@@ -81,7 +82,7 @@ def run_case(ctx, rng, idx):
     S0 = observe(h)
     # make sure metadata is present on nodes and hyperedges
     for n in list(S0.nodes)[::2]:
-        h.set_node_metadata(n, {"name": repr(n), "g": rng.randint(0, 3)})
+        h.set_node_metadata(n, {"name": repr(n), "g": rng.randint(0, 3), "l": [1, {"deep": [2]}]})
     for k in list(S0.edges)[::2]:
         if K.size(k) > 0:
             h.set_edge_metadata(*lib_args(kind, k), {"tag": rng.choice("xyz"), "n": [1, {"q": 2}]})
@@ -149,6 +150,32 @@ def run_case(ctx, rng, idx):
     Sc = observe(c)
     ctx.check("C05:copy", Sc.same(S, with_hgmd=True) and type(c) is type(h), "C05:copy:differs:" + ",".join(Sc.diff(S, True)), wit)
     ctx.check("C05:copy", hash_hypergraph(c) == hash0, "C05:copy:hash-differs", wit)
+    # values nested inside the metadata, edited IN PLACE through what the getters hand out (a copy that shares the inner
+    # lists / dicts with its original is not independent of it)
+    for target, other, name in ((c, h, "copy"), (h, c, "original")):
+        S_other = observe(other)
+        touched = 0
+        for n in list(S.nodes)[:6]:
+            md = call(target.get_node_metadata, n)
+            if isinstance(md, dict) and isinstance(md.get("l"), list):
+                md["l"].append("edited-" + name)
+                if len(md["l"]) > 1 and isinstance(md["l"][1], dict):
+                    md["l"][1]["deep"].append(name)
+                touched += 1
+        for k in list(S.edges)[:6]:
+            if K.size(k) == 0:
+                continue
+            md = call(target.get_edge_metadata, *lib_args(kind, k))
+            if isinstance(md, dict) and isinstance(md.get("n"), list):
+                md["n"].append("edited-" + name)
+                if len(md["n"]) > 1 and isinstance(md["n"][1], dict):
+                    md["n"][1]["q"] = name
+                touched += 1
+        if touched:
+            So = observe(other)
+            ctx.check("C05:copy", So.same(S_other, with_hgmd=True), f"C05:copy:nested-metadata-edit-of-the-{name}-leaked:" + ",".join(So.diff(S_other, True)), wit)
+    S = observe(h)  # (the original's nested values were edited above: judge what follows against its current content)
+    hash0 = hash_hypergraph(h)
     mut_cfg = history.Cfg(rng, kind, uni=cfg.uni_name, weighted=S.weighted)
     mut_cfg.labels = cfg.labels
     mut_cfg.avoid = {"copy"}
